@@ -165,6 +165,27 @@ Proof.
     destruct (is_space c); [cbn in Hc; discriminate|reflexivity].
 Qed.
 
+(* under plain_ws, str.lstrip and Python's own skipping of layout characters coincide *)
+Lemma plain_lstrip : forall l, plain_ws l = true -> lstrip l = py_lskip l.
+Proof.
+  induction l as [|c r IH]; intro Hp; [reflexivity|].
+  cbn [plain_ws forallb lstrip py_lskip] in *. apply andb_true_iff in Hp as [Hc Hp].
+  destruct (is_space c) eqn:Es.
+  - cbn in Hc. rewrite Hc. apply IH. exact Hp.
+  - destruct (py_ws c) eqn:Ew; [|reflexivity].
+    unfold py_ws in Ew. apply orb_true_iff in Ew as [E|E]; apply Z.eqb_eq in E; subst; discriminate.
+Qed.
+
+(* a line is junk for _collect_block exactly when it is not a logical line of Python *)
+Lemma plain_junk_logical : forall l, plain_ws l = true -> junk l = negb (py_logical l).
+Proof.
+  intros l Hp. unfold junk, comment_only, py_logical. rewrite (plain_lstrip l Hp).
+  destruct (is_blank l) eqn:Eb.
+  - rewrite (plain_blank_lskip l Hp Eb). reflexivity.
+  - destruct (plain_nonblank_lskip l Hp Eb) as (c & q & Hs & _ & _). rewrite Hs.
+    cbn [orb starts_hash]. unfold ch_hash. rewrite negb_involutive. reflexivity.
+Qed.
+
 Section BlockProof.
   Variable k : nat.              (* 1 for space-indented scripts, 2 for tab-indented ones *)
   Hypothesis k_pos : (0 < k)%nat.
@@ -172,29 +193,20 @@ Section BlockProof.
   Lemma take_block_py : forall ls bm,
     Forall (fun l => plain_ws l = true) ls ->
     Forall (fun l => is_blank l = false -> py_indent l = (k * indent_of l)%nat) ls ->
-    forallb (fun l => negb (py_comment_only l) || (bm <? indent_of l)%nat) (py_take (k * bm) ls) = true ->
     take_block bm ls = py_take (k * bm) ls.
   Proof.
-    induction ls as [|l r IH]; intros bm Hp Hk Hg; [reflexivity|].
+    induction ls as [|l r IH]; intros bm Hp Hk; [reflexivity|].
     inversion Hp as [|? ? Hpl Hpr]; subst. inversion Hk as [|? ? Hkl Hkr]; subst.
-    cbn [take_block py_take] in *.
-    destruct (is_blank l) eqn:Eb.
-    - assert (Hl : py_logical l = false) by (unfold py_logical; rewrite (plain_blank_lskip l Hpl Eb); reflexivity).
-      rewrite Hl in *. cbn [andb] in *. cbn [forallb] in Hg. apply andb_true_iff in Hg as [_ Hg].
+    cbn [take_block py_take]. rewrite (plain_junk_logical l Hpl).
+    destruct (py_logical l) eqn:El; cbn [negb andb].
+    - assert (Eb : is_blank l = false).
+      { destruct (is_blank l) eqn:E; [|reflexivity].
+        unfold py_logical in El. rewrite (plain_blank_lskip l Hpl E) in El. discriminate. }
+      rewrite (Hkl Eb).
+      destruct (Nat.leb_spec (indent_of l) bm) as [Hle|Hgt];
+        destruct (Nat.leb_spec (k * indent_of l) (k * bm)) as [Hle'|Hgt']; try nia; [reflexivity|].
       f_equal. apply IH; assumption.
-    - destruct (plain_nonblank_lskip l Hpl Eb) as (c & q & Hs & Hw & Hsp).
-      specialize (Hkl eq_refl).
-      unfold py_logical in *. unfold py_comment_only in Hg. rewrite Hs in *.
-      destruct (c =? 35) eqn:E35.
-      + cbn [negb andb] in *. cbn [forallb] in Hg. rewrite Hs, E35 in Hg. cbn [negb orb] in Hg.
-        apply andb_true_iff in Hg as [Hd Hg]. apply Nat.ltb_lt in Hd.
-        destruct (Nat.leb_spec (indent_of l) bm); [lia|].
-        f_equal. apply IH; assumption.
-      + cbn [negb andb] in *. rewrite Hkl in *.
-        destruct (Nat.leb_spec (indent_of l) bm) as [Hle|Hgt];
-          destruct (Nat.leb_spec (k * indent_of l) (k * bm)) as [Hle'|Hgt']; try nia; [reflexivity|].
-        cbn [forallb] in Hg. apply andb_true_iff in Hg as [_ Hg].
-        f_equal. apply IH; assumption.
+    - f_equal. apply IH; assumption.
   Qed.
 End BlockProof.
 
@@ -219,7 +231,7 @@ Lemma collect_block_is_py_block : forall lines start,
 Proof.
   intros lines start G. unfold block_guard in G.
   repeat (apply andb_true_iff in G as [G ?]).
-  rename H into Hcg, H0 into Hlog, H1 into Hun, H2 into Hpl. apply Nat.ltb_lt in G.
+  rename H into Hlog, H0 into Hun, H1 into Hpl. apply Nat.ltb_lt in G.
   destruct (uniform_scale lines Hun) as (k & Kpos & Hk).
   rewrite forallb_forall in Hpl.
   set (hd := nth start lines []) in *.
@@ -229,8 +241,16 @@ Proof.
     unfold py_logical in Hlog. rewrite (plain_blank_lskip hd (Hpl hd Hin) E) in Hlog. discriminate. }
   assert (Hbase : py_indent hd = (k * indent_of hd)%nat) by (apply Hk; assumption).
   unfold collect_block, py_block. fold hd. rewrite Hbase.
-  unfold py_block in Hcg. fold hd in Hcg. rewrite Hbase in Hcg. cbn [fst] in Hcg.
-  rewrite (take_block_py k Kpos (skipn (S start) lines) (indent_of hd)); [reflexivity| | |exact Hcg].
+  rewrite (take_block_py k Kpos (skipn (S start) lines) (indent_of hd)); [reflexivity| |].
   - apply Forall_forall. intros l Hl. apply Hpl. eapply In_skipn; exact Hl.
   - apply Forall_forall. intros l Hl. apply Hk. eapply In_skipn; exact Hl.
+Qed.
+
+(* in particular: the logical lines of the block are Python's, wherever the comment-only lines
+   of the block stand (column 0 included) *)
+Lemma collect_block_logical : forall lines start,
+  block_guard lines start = true ->
+  filter py_logical (fst (collect_block lines start)) = py_block_logical lines start.
+Proof.
+  intros lines start G. rewrite (collect_block_is_py_block lines start G). reflexivity.
 Qed.
